@@ -10,18 +10,23 @@ pub mod rustix {
             pub const NONBLOCK: EventfdFlags = EventfdFlags { bits: 0x800 };
         }
         impl vstd::std_specs::ops::BitOrSpecImpl for EventfdFlags {
-            open spec fn obeys_bitor_spec() -> bool { false }
+            open spec fn obeys_bitor_spec() -> bool { true }
             open spec fn bitor_req(self, rhs: EventfdFlags) -> bool { true }
-            uninterp spec fn bitor_spec(self, rhs: EventfdFlags) -> EventfdFlags;
+            open spec fn bitor_spec(self, rhs: EventfdFlags) -> EventfdFlags { EventfdFlags { bits: self.bits | rhs.bits } }
         }
         impl std::ops::BitOr for EventfdFlags {
             type Output = EventfdFlags;
             #[verifier::external_body]
             fn bitor(self, rhs: EventfdFlags) -> (r: EventfdFlags) { unimplemented!() }
         }
-        /// ASSUMED: creates a fresh eventfd object with the given initial counter
+        /// the counter an eventfd was created with / the flags it was created with (ghost)
+        pub uninterp spec fn evfd_initval(fd: int) -> u32;
+        pub uninterp spec fn evfd_flags(fd: int) -> EventfdFlags;
+        /// ASSUMED: creates a fresh eventfd object with the given initial counter and flags
         #[verifier::external_body]
-        pub fn eventfd(initval: u32, flags: EventfdFlags) -> (r: Result<std::os::fd::OwnedFd, crate::rustix::io::Errno>) { unimplemented!() }
+        pub fn eventfd(initval: u32, flags: EventfdFlags) -> (r: Result<std::os::fd::OwnedFd, crate::rustix::io::Errno>)
+            ensures r matches Ok(fd) ==> evfd_initval(crate::ext::fd_raw(&fd)) == initval && evfd_flags(crate::ext::fd_raw(&fd)) == flags,
+        { unimplemented!() }
     }
     pub mod io {
         use vstd::prelude::*;
